@@ -373,6 +373,19 @@ func run(c *vf.Ctx) {
 		}
 	}
 	gen2(nil, 4)
+	// a packet that ends the connection, racing with a concurrent local call: the mux loop's
+	// shutdown (dropAll, closing channels, closing the request streams) against SendRequest /
+	// OpenChannel needs the local call delayed AND the shutdown interrupted: 2 deviations
+	// (quick: three representative fatal packets - unknown channel, malformed, oversize data;
+	// thorough: every packet kind that ends the connection)
+	rep := map[int]bool{ssh.VerifC36ConfirmUnknown: true, ssh.VerifC36ShortChannelPkt: true, ssh.VerifC36DataOTooBig: true}
+	for k := 0; k < n; k++ {
+		if model([]int{k}).fatal == 0 && (c.Thorough || rep[k]) {
+			for l := 4; l <= 6; l++ {
+				add([]int{k}, l, 2, "len1 fatal packet, concurrent local call, bound2")
+			}
+		}
+	}
 	// no packets at all, only local calls
 	eb := 1
 	if c.Thorough {
